@@ -182,6 +182,51 @@ pub fn run_case(ctx: &Ctx, case: u64, ev: &mut Ev) {
         }
     }
 
+    // ---------- (2a') PolyhedraGen::with_root at interior nodes: a node at relative depth k is reported with the
+    // half-space of the edge into the start node followed by the k half-spaces of its path inside the subtree
+    // (seeded change C09-m: the stack was cut relative to the tree root after the first return of the DFS)
+    {
+        let mut starts = Vec::new();
+        let mut stack = vec![s.root];
+        while let Some(i) = stack.pop() {
+            if i != s.root && s.node(i).children.iter().flatten().count() > 0 && starts.len() < 6 {
+                starts.push(i);
+            }
+            for c in s.node(i).children.iter().rev().flatten() {
+                stack.push(*c);
+            }
+        }
+        for r in starts {
+            let res = lib(case, "PolyhedraGen::with_root stream", || {
+                let mut it = affinitree::pwl::iter::PolyhedraGen::with_root(&tree.tree, r);
+                let mut out = Vec::new();
+                while let Some((d, polys)) = it.next(&tree.tree) {
+                    out.push((d.depth, d.index, polys.iter().map(Aff::from_poly).collect::<Vec<_>>()));
+                    if out.len() > 100_000 {
+                        break;
+                    }
+                }
+                out
+            });
+            let stream = match res {
+                Ok(x) => x,
+                Err(p) => fail!("c09:with_root:panic", p),
+            };
+            for (depth, idx, polys) in &stream {
+                let rows = s.path_rows_f64(*idx).unwrap();
+                let want = depth + 1;
+                if rows.len() < want {
+                    fail!("c09:with_root-region", format!("with_root({}): node {} reported at relative depth {} but its path has {} edges", r, idx, depth, rows.len()));
+                }
+                let tail = &rows[rows.len() - want..];
+                if polys.len() != want || polys.iter().zip(tail.iter()).any(|(p, (row, b))| p.mat.len() != 1 || p.mat[0] != *row || p.bias[0] != *b) {
+                    fail!("c09:with_root-region", format!("with_root({}): node {} (relative depth {}) is reported with {} half-spaces that are not the entry edge of the start node followed by its path inside the subtree", r, idx, depth, polys.len()));
+                }
+            }
+            ev.inc("with_root_streams_checked");
+        }
+    }
+
     // ---------- (2b) the Iterator form consumed through adaptors (nth / skip / step_by): same items
     {
         type Item = (usize, usize, usize, Vec<Aff>);
